@@ -236,11 +236,33 @@ func waitsigStep() schema.CallableStep {
 			select {
 			case t := <-d.ch:
 				return "success", stepOut{Message: t}
-			case <-time.After(4 * time.Second):
+			case <-time.After(22 * time.Second):
 				return "success", stepOut{Message: "no signal arrived"}
 			}
 		},
 	)
+}
+
+// waitStepsBegun waits until the server has accepted n work-starts (event s.start: the run is registered with the server) - the settle heuristic alone
+// is not enough on a loaded machine: a signal sent before its run's work-start has been handled is (rightly)
+// answered with "unknown run" and dropped, which would be a fault of the harness, not of the code under test.
+func (w *world) waitStepsBegun(n int, timeout time.Duration) bool {
+	deadline := time.Now().Add(timeout)
+	for {
+		c := 0
+		for _, e := range w.s.Events() {
+			if e.Point == "s.start" {
+				c++
+			}
+		}
+		if c >= n {
+			return true
+		}
+		if time.Now().After(deadline) {
+			return false
+		}
+		time.Sleep(2 * time.Millisecond)
+	}
 }
 
 // runSharedSig: sc.Runs overlapping calls of "waitsig" that were all given ONE signalsToStep channel; one signal per
@@ -281,19 +303,23 @@ func runSharedSig(sc scenario, res *result) {
 			rets <- ret{rs.ID, cli.Execute(schema.Input{RunID: rs.ID, ID: "waitsig", InputData: map[string]any{"name": rs.ID, "beh": "ok"}}, shared, nil)}
 		}()
 	}
-	w.s.WaitSettled(stepTimeout) // every call has registered and its write loop waits on the shared channel
 	n := len(sc.Runs)
+	if !w.waitStepsBegun(n, 20*time.Second) {
+		res.FollowErr = "the steps of the overlapping calls did not all begin"
+		return
+	}
+	w.s.WaitSettled(stepTimeout) // every call has registered and its write loop waits on the shared channel
 	for k := 0; k < n; k++ {
 		id := sc.Runs[(k+int(sc.Seed))%n].ID
 		w.s.Emit(sched.GoID(), "e.sig", map[string]any{"run": id}) // the caller addresses its next signal (before the send)
 		select {
 		case shared <- schema.Input{RunID: id, ID: "tok", InputData: map[string]any{"token": "token for " + id}}:
-		case <-time.After(3 * time.Second):
+		case <-time.After(20 * time.Second):
 			res.FollowErr = "nobody takes a signal from the shared channel"
 			return
 		}
 	}
-	deadline := time.After(12 * time.Second)
+	deadline := time.After(35 * time.Second)
 	for k := 0; k < n; k++ {
 		select {
 		case x := <-rets:
@@ -411,6 +437,7 @@ func runReuseSig(sc scenario, res *result) {
 		id string
 		r  atp.ExecutionResult
 	}
+	begun := 0
 	call := func(label, token string) *execResult {
 		e := &execResult{St: "none"}
 		w.res[label] = e
@@ -419,6 +446,11 @@ func runReuseSig(sc scenario, res *result) {
 		go func() {
 			done <- cli.Execute(schema.Input{RunID: "r1", ID: "waitsig", InputData: map[string]any{"name": "r1", "beh": "ok"}}, to, nil)
 		}()
+		begun++
+		if !w.waitStepsBegun(begun, 20*time.Second) {
+			res.FollowErr = "the step of the " + label + " call did not begin"
+			return e
+		}
 		w.s.WaitSettled(stepTimeout) // registered, the step waits for its signal
 		if label == "second" {
 			// the first run's goroutine runs on only now
@@ -430,7 +462,7 @@ func runReuseSig(sc scenario, res *result) {
 		}
 		select {
 		case to <- schema.Input{RunID: "r1", ID: "tok", InputData: map[string]any{"token": token}}:
-		case <-time.After(3 * time.Second):
+		case <-time.After(20 * time.Second):
 			res.FollowErr = "nobody takes the signal of the " + label + " call"
 		}
 		close(to)
@@ -448,7 +480,7 @@ func runReuseSig(sc scenario, res *result) {
 				e.Got, _ = m["message"].(string)
 			}
 			e.TokenOK = e.Got == token
-		case <-time.After(10 * time.Second):
+		case <-time.After(25 * time.Second):
 			res.Stuck = true
 			for _, g := range sched.BlockedSDK() {
 				res.StuckDetail = append(res.StuckDetail, fmt.Sprintf("%s [%s] %s", w.s.Role(g.ID), g.State, strings.TrimSpace(g.Top)))
@@ -462,6 +494,11 @@ func runReuseSig(sc scenario, res *result) {
 		call("second", "token of the second call")
 	}
 	w.s.SetMode(sched.Free)
+	if res.FollowErr != "" {
+		// the scene could not be set: no verdict from this session (and no Close behind a call that was abandoned)
+		res.Events = w.s.Events()
+		return
+	}
 	closed := make(chan error, 1)
 	go func() { closed <- cli.Close() }()
 	select {
